@@ -172,6 +172,96 @@ func init() {
 		c10intLits(w, "numberFormat", "hoursHandler", "hoursHandlerInts")
 		c10cmpOps(w, "numberFormat", "hoursHandler", "hoursHandlerCmps")
 		c10strLits(w, "numberFormat", "currencyLanguageHandler", "currencyLanguageStrs")
+		c10apFmts(w)
 		w.WriteString("\n")
 	})
+}
+
+// c10apFmts: every value an `apFmt:` field of the language tables can take (AM/PM patterns that
+// dateTimesHandler / hoursHandler split at "/" and index with [1] without a guard).
+func c10apFmts(w *bytes.Buffer) {
+	nfpAmPm := []string{"AM/PM", "A/P", "\u4e0a\u5348/\u4e0b\u5348"} // nfp.AmPm, asserted by the harness
+	set := map[string]bool{}
+	var resolve func(e ast.Expr) (string, bool)
+	resolve = func(e ast.Expr) (string, bool) {
+		switch x := e.(type) {
+		case *ast.BasicLit:
+			if x.Kind == token.STRING {
+				return unq(x.Value), true
+			}
+		case *ast.Ident:
+			if d := constExpr(x.Name); d != nil {
+				return resolve(d)
+			}
+		case *ast.IndexExpr:
+			if n, ok := c10sel(x.X); ok && n == "nfp.AmPm" {
+				if bl, ok := x.Index.(*ast.BasicLit); ok {
+					i, _ := strconv.Atoi(bl.Value)
+					if 0 <= i && i < len(nfpAmPm) {
+						return nfpAmPm[i], true
+					}
+				}
+			}
+		case *ast.CallExpr:
+			if n, ok := c10sel(x.Fun); ok && n == "strings.ToLower" && len(x.Args) == 1 {
+				if v, ok := resolve(x.Args[0]); ok {
+					return strings.ToLower(v), true
+				}
+			}
+		}
+		return "", false
+	}
+	n := 0
+	f := files["numfmt.go"]
+	if f == nil {
+		fail("numfmt.go")
+		return
+	}
+	ast.Inspect(f, func(nd ast.Node) bool {
+		kv, ok := nd.(*ast.KeyValueExpr)
+		if !ok {
+			return true
+		}
+		if id, ok := kv.Key.(*ast.Ident); ok && id.Name == "apFmt" {
+			n++
+			v, ok := resolve(kv.Value)
+			if !ok {
+				fail("apFmt value of unknown form: %s", src(kv.Value))
+				return true
+			}
+			set[v] = true
+		}
+		return true
+	})
+	if n == 0 {
+		fail("no apFmt fields in the language tables")
+	}
+	var xs []string
+	for v := range set {
+		xs = append(xs, v)
+	}
+	sort.Strings(xs)
+	w.WriteString("\n/-! every AM/PM pattern of the language tables -/\n")
+	fmt.Fprintf(w, "def apFmtFields : Nat := %d\n", n)
+	w.WriteString("def apFmts : List String := [\n")
+	for i, v := range xs {
+		sep := ","
+		if i == len(xs)-1 {
+			sep = ""
+		}
+		fmt.Fprintf(w, "  %s%s\n", leanStr(v), sep)
+	}
+	w.WriteString("]\n")
+}
+
+func c10sel(e ast.Expr) (string, bool) {
+	s, ok := e.(*ast.SelectorExpr)
+	if !ok {
+		return "", false
+	}
+	x, ok := s.X.(*ast.Ident)
+	if !ok {
+		return "", false
+	}
+	return x.Name + "." + s.Sel.Name, true
 }
